@@ -64,10 +64,32 @@ static int create_node(const sqfs_tree_node_t *n, const char *name, int flags)
 
 	switch (n->inode->base.mode & S_IFMT) {
 	case S_IFDIR:
-		if (mkdir(name, 0755) && errno != EEXIST) {
-			fprintf(stderr, "mkdir %s: %s\n",
-				name, strerror(errno));
-			return -1;
+		if (mkdir(name, 0755)) {
+			struct stat sb;
+
+			if (errno != EEXIST) {
+				fprintf(stderr, "mkdir %s: %s\n",
+					name, strerror(errno));
+				return -1;
+			}
+
+			/*
+			 * Something with that name is already there. Only an
+			 * actual directory may be re-used. In particular not
+			 * a symbolic link: everything below it would be
+			 * created wherever the link points to.
+			 */
+			if (lstat(name, &sb)) {
+				fprintf(stderr, "lstat %s: %s\n",
+					name, strerror(errno));
+				return -1;
+			}
+
+			if (!S_ISDIR(sb.st_mode)) {
+				fprintf(stderr, "mkdir %s: exists and "
+					"is not a directory\n", name);
+				return -1;
+			}
 		}
 		break;
 	case S_IFLNK:
